@@ -189,8 +189,55 @@ def o8(tier):
     from props import lir
     return lir.message_refusals(tier, 'O8', 'O8')
 
+UNIFFI_FNS = ['welcome_from_uniffi', 'parse_group_id', 'parse_event_id', 'parse_public_key', 'parse_relay_urls', 'parse_message_sort_order', 'parse_tags', 'derive_upload_keypair', 'decrypt_group_image',
+              'prepare_group_image_for_upload', 'Mdk::get_group', 'Mdk::get_messages', 'Mdk::get_message', 'Mdk::get_welcome', 'Mdk::accept_welcome', 'Mdk::decline_welcome', 'Mdk::accept_welcome_json',
+              'Mdk::create_message', 'Mdk::process_message', 'Mdk::process_welcome', 'Mdk::get_members', 'Mdk::add_members', 'Mdk::remove_members', 'Mdk::create_group', 'Mdk::get_last_message',
+              'Mdk::get_relays', 'Mdk::merge_pending_commit', 'Mdk::self_update', 'Mdk::leave_group']
+
+
+@guard
+def o9(tier):
+    """the binding layer turns every malformed argument into an error, never a panic"""
+    old = M.SEQ_BOUND[0]
+    M.SEQ_BOUND[0] = 2
+    try:
+        ob = Ob('O9', 'mdk-uniffi (the foreign-language binding layer): no feasible panic path in the argument conversion helpers and in the exported methods up to their call into mdk-core, for '
+                      'arbitrary strings / byte vectors / records handed in by the host application (hex strings of any length, lists of <= 2 elements)',
+                crates=('mdk-uniffi', 'mdk-storage-traits'), models=CM.codec_models(), loop_bound=8, pure=C.PURE_MLS, max_paths=40000)
+        ob.eng.model_maps = False
+        total = 0
+        done = []
+        for name in UNIFFI_FNS:
+            try:
+                f = ob.fn('mdk-uniffi', name)
+            except Exception as e:
+                ob.require(False, f'O9/{name}/not-found', f'binding function {name} not found in the MIR: {e}')
+                continue
+            paths = ob.explore(f, [Opaque(f'arg{i}', t) for i, (_, t) in enumerate(f.params)])
+            total += len(paths)
+            done.append(f'{name}:{len(paths)}')
+            for p in paths:
+                if p.kind == 'panic':
+                    ob.require(False, f'O9/{name}/panic', f'{name} can panic on an argument supplied by the host application: {p.msg}', p)
+    finally:
+        M.SEQ_BOUND[0] = old
+    ob.r.bounds = {'functions': done, 'list arguments': '0..2 elements', 'string / byte lengths': 'symbolic u64'}
+    ob.r.assumptions += ['the generated uniffi scaffolding (lifting / lowering of arguments) and the callees in mdk-core / nostr / hex / serde_json are not encoded; mdk-core entry points are covered by O1',
+                         'copy_from_slice panics when the slice lengths differ; try_into / from_slice return Err instead']
+    ob.r.vacuity.append(f'{total} paths over {len(done)} binding functions')
+    return ob.done(cases=total)
+
+
+def o10(tier):
+    """a failed storage operation must not leave half of its effects visible: the error path of the SQLite rollback rolls its transaction back"""
+    from props import C12
+    r = C12.o1(tier)
+    r.oid = 'O10'
+    r.title = 'SQLite (shared with C12-O1): snapshot creation, rollback and relay replacement undo everything on their error path (ROLLBACK / ROLLBACK TO + RELEASE), so an event that is refused because the rollback it triggered failed leaves the group as it was'
+    return r
+
 def run(tier, seed, only=None):
-    obs = [('O1', o1), ('O1b', o1b), ('O2', o2), ('O3', o3), ('O4', o4), ('O5', o5), ('O6', o6), ('O7', o7), ('O8', o8)]
+    obs = [('O1', o1), ('O1b', o1b), ('O2', o2), ('O3', o3), ('O4', o4), ('O5', o5), ('O6', o6), ('O7', o7), ('O8', o8), ('O9', o9), ('O10', o10)]
     out = []
     for k, f in obs:
         if only and k not in only:
